@@ -50,13 +50,14 @@ impl Gen {
         }
     }
     fn fin(&mut self, op: &mut Value, left: usize) {
-        let (f, j) = match self.rng.gen_range(0..8) {
+        let (f, j) = match self.rng.gen_range(0..10) {
             0 => ("last", 0),
             1 => ("fold", 0),
             2 => ("nth", 0),
             3 if self.rng.gen_bool(0.15) => ("nth", 2_000_000_000),
             3 => ("nth", self.rng.gen_range(0..left + 3)),
-            4 => (["any", "all", "position", "find"][self.rng.gen_range(0..4)], self.rng.gen_range(0..left + 2)),
+            4 => (["any", "all", "position", "find", "find_map"][self.rng.gen_range(0..5)], self.rng.gen_range(0..left + 2)),
+            5 => (["for_each", "reduce", "collect", "min_by", "max_by"][self.rng.gen_range(0..5)], 0),
             _ => ("none", 0),
         };
         op["fin"] = json!(f);
